@@ -1,7 +1,328 @@
 /-
-  Helper lemmas (RunH).
+  Helper lemmas (RunH): the metadata table is complete, the work list of loadable torrents can always be built,
+  single-segment work items are non-empty, and the shape of `run` needed for "no panic at run level" (C16run).
 -/
 import TB.Spec.ExportSpec
+import TB.Props.C06
+import TB.Props.C10
+import TB.Props.C16
+import TB.Lemmas.RunARun
 namespace TB.RunH
+
+/-! ### the table is complete -/
+
+theorem entriesOfFiles_complete (exportDir : Path) (t : Torrent) (fs : List FileRec) (idx id k : Nat)
+    (hk : k < fs.length) :
+    ∃ e ∈ entriesOfFiles exportDir t fs idx id, e.infoHash = t.infoHash ∧ e.fileIndex = idx + k := by
+  induction fs generalizing idx id k with
+  | nil => simp at hk
+  | cons f fs ih =>
+    simp only [entriesOfFiles]
+    cases k with
+    | zero => exact ⟨_, List.mem_cons_self, rfl, rfl⟩
+    | succ k =>
+      obtain ⟨e, he, h1, h2⟩ := ih (idx + 1) (id + 1) k (by simpa using hk)
+      exact ⟨e, List.mem_cons_of_mem _ he, h1, by omega⟩
+
+theorem buildTable_cons_suffix (exportDir : Path) (u : Torrent) (us : List Torrent) (id0 : Nat) :
+    ∃ pre id', buildTable exportDir (u :: us) id0 = pre ++ buildTable exportDir us id' := by
+  simp only [buildTable]
+  split
+  · exact ⟨_, _, rfl⟩
+  · exact ⟨[_], _, rfl⟩
+  · exact ⟨[], _, rfl⟩
+
+theorem buildTable_complete (exportDir : Path) (ts : List Torrent) (id0 : Nat) (t : Torrent) (ht : t ∈ ts) :
+    (∀ l, t.info.files = none → t.info.length = some l →
+        ∃ e ∈ buildTable exportDir ts id0, e.infoHash = t.infoHash ∧ e.fileIndex = 0) ∧
+    (∀ fs, t.info.files = some fs → ∀ k, k < fs.length →
+        ∃ e ∈ buildTable exportDir ts id0, e.infoHash = t.infoHash ∧ e.fileIndex = k) := by
+  induction ts generalizing id0 with
+  | nil => cases ht
+  | cons u us ih =>
+    rcases List.mem_cons.1 ht with rfl | ht
+    · constructor
+      · intro l hf hl
+        simp only [buildTable, hf, hl]
+        exact ⟨_, List.mem_cons_self, rfl, rfl⟩
+      · intro fs hf k hk
+        simp only [buildTable, hf]
+        obtain ⟨e, he, h1, h2⟩ := entriesOfFiles_complete exportDir t fs 0 id0 k hk
+        exact ⟨e, List.mem_append_left _ he, h1, by simpa using h2⟩
+    · obtain ⟨pre, id', hpre⟩ := buildTable_cons_suffix exportDir u us id0
+      rw [hpre]
+      obtain ⟨i1, i2⟩ := ih id' ht
+      constructor
+      · intro l hf hl
+        obtain ⟨e, he, h⟩ := i1 l hf hl
+        exact ⟨e, List.mem_append_right _ he, h⟩
+      · intro fs hf k hk
+        obtain ⟨e, he, h⟩ := i2 fs hf k hk
+        exact ⟨e, List.mem_append_right _ he, h⟩
+
+/-! ### lookups succeed -/
+
+theorem lookupEntry_isSome (table : List TEntry) (ih : Bytes) (k : Nat)
+    (h : ∃ e ∈ table, e.infoHash = ih ∧ e.fileIndex = k) : (lookupEntry table ih k).isSome = true := by
+  obtain ⟨e, he, h1, h2⟩ := h
+  unfold lookupEntry
+  rw [List.find?_isSome]
+  exact ⟨e, he, by simp [h1, h2]⟩
+
+theorem populate_entry (c : Cache) (obs : List (Nat × List Path)) (es : List TEntry) (ih : Bytes) (k : Nat)
+    (h : ∃ e ∈ es, e.infoHash = ih ∧ e.fileIndex = k) :
+    ∃ e ∈ (populateSearches c obs es).1, e.infoHash = ih ∧ e.fileIndex = k := by
+  obtain ⟨e, he, h1, h2⟩ := h
+  obtain ⟨e', he', s, rfl⟩ := (populateSearches_rel c obs es).1 e he
+  exact ⟨_, he', h1, h2⟩
+
+theorem mapM_isSome {α β : Type} (f : α → Option β) (l : List α) (h : ∀ a ∈ l, (f a).isSome = true) :
+    (l.mapM f).isSome = true := by
+  induction l with
+  | nil => simp
+  | cons a l ih =>
+    rw [List.mapM_cons]
+    have ha := h a List.mem_cons_self
+    have hl := ih (fun x hx => h x (List.mem_cons_of_mem _ hx))
+    rcases hfa : f a with _ | b
+    · simp [hfa] at ha
+    · rcases hm : l.mapM f with _ | bs
+      · simp [hm] at hl
+      · simp
+
+theorem mapM_singleton {α β : Type} (f : α → Option β) (l : List α) (b : β) (h : l.mapM f = some [b]) :
+    ∃ a, l = [a] ∧ f a = some b := by
+  cases l with
+  | nil => simp at h
+  | cons a l =>
+    rw [List.mapM_cons] at h
+    rcases hfa : f a with _ | b0
+    · simp [hfa] at h
+    · rcases hm : l.mapM f with _ | bs
+      · simp [hfa, hm] at h
+      · simp [hfa, hm] at h
+        obtain ⟨rfl, rfl⟩ := h
+        cases l with
+        | nil => exact ⟨a, rfl, hfa⟩
+        | cons a2 l2 =>
+          exfalso
+          rw [List.mapM_cons] at hm
+          rcases hfa2 : f a2 with _ | b2
+          · simp [hfa2] at hm
+          · rcases hm2 : l2.mapM f with _ | bs2
+            · simp [hfa2, hm2] at hm
+            · simp [hfa2, hm2] at hm
+
+/-! ### the layout of a loadable torrent -/
+
+/-- what the layout of a loadable torrent satisfies: empty, or the C06 partition over the file-length list -/
+def LayoutOk (t : Torrent) (ps : List Piece) : Prop :=
+  ps = [] ∨ ∃ fl : List Nat, 0 < t.info.pieceLength
+    ∧ t.info.pieces.length = (fl.sum + t.info.pieceLength - 1) / t.info.pieceLength
+    ∧ ps.length = t.info.pieces.length
+    ∧ (∀ i (hi : i < ps.length), PieceOk t.info.pieceLength fl t.info.pieces i ps[i])
+    ∧ ((∃ l, t.info.files = none ∧ t.info.length = some l ∧ fl = [l])
+       ∨ (∃ fs, t.info.files = some fs ∧ fl = fs.map (·.length)))
+
+theorem layout_of_load (H : Bytes → Bytes) (doc : Bytes) (t : Torrent) (h : load H doc = .ok t) :
+    ∃ ps, constructPieces t.info.pieceLength t.info.length (t.info.files.map (·.map (·.length))) t.info.pieces
+        = some ps ∧ LayoutOk t ps := by
+  obtain ⟨_, _, _, _, hc⟩ := C10_loaded_wf H doc t h
+  rcases hc with ⟨l, hl, hf, _, hpc⟩ | ⟨fs, hl, hf, hne, _, hpc⟩
+  · rw [hl, hf]
+    simp only [constructPieces]
+    unfold pieceCountOk at hpc
+    by_cases h0 : t.info.pieceLength = 0
+    · simp only [h0, if_true, Bool.and_eq_true, decide_eq_true_eq] at hpc
+      have hnil : t.info.pieces = [] := List.eq_nil_of_length_eq_zero hpc.2
+      refine ⟨_, rfl, .inl ?_⟩
+      rw [hnil]; rfl
+    · simp only [h0, if_false, decide_eq_true_eq] at hpc
+      have hL := Nat.pos_of_ne_zero h0
+      obtain ⟨hlen, hok⟩ := C06_partition_single _ l _ hL hpc
+      exact ⟨_, rfl, .inr ⟨[l], hL, by simpa using hpc, hlen, hok, .inl ⟨l, hf, hl, rfl⟩⟩⟩
+  · rw [hl, hf]
+    simp only [Option.map_some, constructPieces]
+    have hne' : fs.map (·.length) ≠ [] := by simpa using hne
+    unfold pieceCountOk at hpc
+    by_cases h0 : t.info.pieceLength = 0
+    · simp only [h0, if_true, Bool.and_eq_true, decide_eq_true_eq] at hpc
+      have hnil : t.info.pieces = [] := List.eq_nil_of_length_eq_zero hpc.2
+      rw [hnil, h0]
+      refine ⟨[], ?_, .inl rfl⟩
+      have := C06_zero_piece_length none _ hne'
+      simpa [constructPieces] using this
+    · simp only [h0, if_false, decide_eq_true_eq] at hpc
+      have hL := Nat.pos_of_ne_zero h0
+      obtain ⟨ps, hps, hlen, hok⟩ := C06_partition_multi _ _ _ hL hne' hpc
+      exact ⟨ps, hps, .inr ⟨_, hL, hpc, hlen, hok, .inr ⟨fs, hf, rfl⟩⟩⟩
+
+theorem LayoutOk.file_lt {t : Torrent} {ps : List Piece} (h : LayoutOk t ps) :
+    ∀ p ∈ ps, ∀ s ∈ p.segs,
+      (∃ l, t.info.files = none ∧ t.info.length = some l ∧ s.file = 0)
+      ∨ (∃ fs, t.info.files = some fs ∧ s.file < fs.length) := by
+  intro p hp s hs
+  rcases h with rfl | ⟨fl, _, _, _, hok, hfl⟩
+  · cases hp
+  · obtain ⟨i, hi, rfl⟩ := List.mem_iff_getElem.1 hp
+    have hseg := ((hok i hi).2.2.2.2.1 s hs).1
+    have hlt : s.file < fl.length := by
+      by_cases hlt : s.file < fl.length
+      · exact hlt
+      · rw [List.getElem?_eq_none (by omega)] at hseg
+        cases hseg
+    rcases hfl with ⟨l, hf, hl, rfl⟩ | ⟨fs, hf, rfl⟩
+    · exact .inl ⟨l, hf, hl, by simpa using hlt⟩
+    · exact .inr ⟨fs, hf, by simpa using hlt⟩
+
+theorem LayoutOk.single_pos {t : Torrent} {ps : List Piece} (h : LayoutOk t ps) :
+    ∀ p ∈ ps, ∀ s, p.segs = [s] → s.len ≠ 0 := by
+  intro p hp s hs
+  rcases h with rfl | ⟨fl, hL, hcount, hlen, hok, _⟩
+  · cases hp
+  · obtain ⟨i, hi, rfl⟩ := List.mem_iff_getElem.1 hp
+    have hflat := (hok i hi).1
+    rw [hs] at hflat
+    have hl := congrArg List.length hflat
+    simp [addr] at hl
+    have hi' : i + 1 ≤ (fl.sum + t.info.pieceLength - 1) / t.info.pieceLength := by omega
+    rw [Nat.le_div_iff_mul_le hL, Nat.add_mul] at hi'
+    omega
+
+/-! ### the work list can be built -/
+
+theorem workOfTorrent_isSome (H : Bytes → Bytes) (table : List TEntry) (t : Torrent)
+    (hload : ∃ doc, load H doc = .ok t)
+    (htab : (∀ l, t.info.files = none → t.info.length = some l →
+                ∃ e ∈ table, e.infoHash = t.infoHash ∧ e.fileIndex = 0) ∧
+            (∀ fs, t.info.files = some fs → ∀ k, k < fs.length →
+                ∃ e ∈ table, e.infoHash = t.infoHash ∧ e.fileIndex = k)) :
+    (workOfTorrent table t).isSome = true := by
+  obtain ⟨doc, hdoc⟩ := hload
+  obtain ⟨ps, hps, hlay⟩ := layout_of_load H doc t hdoc
+  unfold workOfTorrent
+  rw [hps]
+  simp only
+  apply mapM_isSome
+  intro p hp
+  unfold workOfPiece
+  have hsegs : (p.segs.mapM (fun s => (lookupEntry table t.infoHash s.file).map
+      (fun e => (⟨s.len, s.off, e⟩ : WSeg)))).isSome = true := by
+    apply mapM_isSome
+    intro s hs
+    rw [Option.isSome_map]
+    apply lookupEntry_isSome
+    rcases hlay.file_lt p hp s hs with ⟨l, hf, hl, h0⟩ | ⟨fs, hf, hlt⟩
+    · rw [h0]; exact htab.1 l hf hl
+    · exact htab.2 fs hf _ hlt
+  rcases hm : p.segs.mapM (fun s => (lookupEntry table t.infoHash s.file).map
+      (fun e => (⟨s.len, s.off, e⟩ : WSeg))) with _ | segs
+  · rw [hm] at hsegs; cases hsegs
+  · rw [hm]; rfl
+
+theorem convert_isSome (H : Bytes → Bytes) (exportDir : Path) (all ts : List Torrent) (c : Cache)
+    (obs : List (Nat × List Path))
+    (hsub : ∀ t ∈ ts, t ∈ all) (hload : ∀ t ∈ ts, ∃ doc, load H doc = .ok t) :
+    (convertPiecesToWork (populateSearches c obs (buildTable exportDir all 0)).1 ts).isSome = true := by
+  induction ts with
+  | nil => rfl
+  | cons t ts ih =>
+    have h1 : (workOfTorrent (populateSearches c obs (buildTable exportDir all 0)).1 t).isSome = true := by
+      apply workOfTorrent_isSome H _ t (hload t List.mem_cons_self)
+      obtain ⟨b1, b2⟩ := buildTable_complete exportDir all 0 t (hsub t List.mem_cons_self)
+      exact ⟨fun l hf hl => populate_entry _ _ _ _ _ (b1 l hf hl),
+             fun fs hf k hk => populate_entry _ _ _ _ _ (b2 fs hf k hk)⟩
+    have h2 := ih (fun x hx => hsub x (List.mem_cons_of_mem _ hx)) (fun x hx => hload x (List.mem_cons_of_mem _ hx))
+    unfold convertPiecesToWork
+    rcases ha : workOfTorrent (populateSearches c obs (buildTable exportDir all 0)).1 t with _ | a
+    · rw [ha] at h1; cases h1
+    · rcases hb : convertPiecesToWork (populateSearches c obs (buildTable exportDir all 0)).1 ts with _ | b
+      · rw [hb] at h2; cases h2
+      · rfl
+
+/-! ### single-segment work items -/
+
+theorem workOfTorrent_single (H : Bytes → Bytes) (table : List TEntry) (t : Torrent) (ws : List Work)
+    (hload : ∃ doc, load H doc = .ok t) (hw : workOfTorrent table t = some ws) :
+    ∀ w ∈ ws, ∀ s, w.segs = [s] → s.len ≠ 0 := by
+  obtain ⟨doc, hdoc⟩ := hload
+  obtain ⟨ps, hps, hlay⟩ := layout_of_load H doc t hdoc
+  unfold workOfTorrent at hw
+  rw [hps] at hw
+  simp only at hw
+  intro w hwm s hs
+  obtain ⟨p, hp, hpw⟩ := mapM_option_mem hw w hwm
+  unfold workOfPiece at hpw
+  split at hpw
+  · rename_i segs hm
+    cases hpw
+    simp only at hs
+    subst hs
+    obtain ⟨s0, hs0, hf⟩ := mapM_singleton _ _ _ hm
+    have := hlay.single_pos p hp s0 hs0
+    simp only [Option.map_eq_some_iff] at hf
+    obtain ⟨e, _, rfl⟩ := hf
+    exact this
+  · cases hpw
+
+theorem convert_mem {table : List TEntry} {ts : List Torrent} {ws : List Work}
+    (h : convertPiecesToWork table ts = some ws) :
+    ∀ w ∈ ws, ∃ t ∈ ts, ∃ wt, workOfTorrent table t = some wt ∧ w ∈ wt := by
+  induction ts generalizing ws with
+  | nil => simp [convertPiecesToWork] at h; subst h; intro w hw; cases hw
+  | cons t ts ih =>
+    unfold convertPiecesToWork at h
+    split at h
+    · rename_i a b ha hb
+      cases h
+      intro w hw
+      rcases List.mem_append.1 hw with hw | hw
+      · exact ⟨t, List.mem_cons_self, a, ha, hw⟩
+      · obtain ⟨t', ht', r⟩ := ih hb w hw
+        exact ⟨t', List.mem_cons_of_mem _ ht', r⟩
+    · cases h
+
+/-! ### evaluation -/
+
+theorem solveAll_no_panic (H : Bytes → Bytes) (ws : List Work)
+    (h : ∀ w ∈ ws, ∀ st, (solvePiece H st w).2 ≠ .panic) (st : St) (c : Counters) (acc : List Counters) :
+    (solveAll H st ws c acc).2.2 = false := by
+  induction ws generalizing st c acc with
+  | nil => rfl
+  | cons w ws ih =>
+    rw [TB.RB.solveAll_cons, if_neg (h w List.mem_cons_self st)]
+    exact ih (fun x hx => h x (List.mem_cons_of_mem _ hx)) _ _ _
+
+/-- the four ways a run can end, with what the panic cases depend on -/
+theorem run_cases (H : Bytes → Bytes) (inp : RunIn) :
+    (run H inp).result = .ok () ∨ (run H inp).result = .err ∨
+    (∃ c, convertPiecesToWork
+        (populateSearches c inp.searchObs
+          (buildTable inp.exportDir.path (dedupTorrents (sortTorrents inp.torrents)) 0)).1
+        (dedupTorrents (sortTorrents inp.torrents)) = none) ∨
+    (∃ c st ordered, convertPiecesToWork
+        (populateSearches c inp.searchObs
+          (buildTable inp.exportDir.path (dedupTorrents (sortTorrents inp.torrents)) 0)).1
+        (dedupTorrents (sortTorrents inp.torrents)) = some (run H inp).work
+      ∧ (∀ w ∈ ordered, w ∈ (run H inp).work)
+      ∧ (run H inp).result = (if (solveAll H st ordered ⟨0, 0, 0⟩ []).2.2 then .panic else .ok ())) := by
+  unfold run
+  simp only []
+  split
+  · exact .inl rfl
+  split
+  · exact .inr (.inl rfl)
+  · split
+    · exact .inr (.inl rfl)
+    · split
+      · rename_i hnone
+        exact .inr (.inr (.inl ⟨_, hnone⟩))
+      · rename_i work hwork
+        refine .inr (.inr (.inr ⟨_, _, (match reorder work inp.order with
+                          | some o => (o, true)
+                          | none => (defaultOrder work, inp.order.isEmpty)).fst, hwork, ?_, rfl⟩))
+        cases hr : reorder work inp.order with
+        | some o => exact reorder_mem hr
+        | none => intro w hw; exact List.mem_reverse.1 hw
 
 end TB.RunH
